@@ -802,6 +802,7 @@ ASM_CONF = ["conf-accept", "conf-err", "conf-blocks", "conf-sym"]
 
 @check("C01")
 def c01(run):
+    run.mc_leg("mc_asm", "MC_Asm", "MC_Asm5.cfg" if run.tier == "thorough" else "MC_Asm.cfg", workers=16, timeout=3000)
     run.rec_leg("asm", ["asm", "faults=25"], verdict=["panic", "image", "labels", "extflag", "wf-rejected", "unknown-event"])
     return run.finish(
         rule="generated programs (every opcode and alias, operands at and inside field limits, label operands forward and "
@@ -818,6 +819,7 @@ def c01(run):
 
 @check("C02")
 def c02(run):
+    run.mc_leg("mc_asm", "MC_Asm", "MC_Asm5.cfg" if run.tier == "thorough" else "MC_Asm.cfg", workers=16, timeout=3000)
     run.rec_leg("asm", ["asm", "faults=70"], verdict=["panic", "accept", "kind", "unknown-event"])
     return run.finish(
         rule="generated programs with zero to three injected faults (missing/extra/nested .orig/.end, duplicate labels in "
@@ -844,6 +846,7 @@ def c23(run):
 
 @check("C24")
 def c24(run):
+    run.mc_leg("mc_asm", "MC_Asm", "MC_Asm5.cfg" if run.tier == "thorough" else "MC_Asm3.cfg", workers=16, timeout=3000)
     run.rec_leg("asm", ["asm", "faults=10"], verdict=["panic", "lines", "linequery", "lines-not-injective", "unknown-event"])
     return run.finish(
         rule="generated programs assembled with debug symbols (statements on varied lines, label-only lines, comments, "
@@ -859,6 +862,7 @@ LINK_CONF = ["link-conf-accept", "link-conf-kind", "link-conf-obj", "load-conf"]
 
 @check("C20")
 def c20(run):
+    run.mc_leg("mc_link", "MC_Link", "MC_Link.cfg", workers=16)
     run.rec_leg("link", ["link"], verdict=["panic", "link-accept", "link-image", "link-labels", "link-rel", "order-success", "order-core",
                                            "order-labels", "set-accept", "set-image", "set-rel", "set-labels", "unknown-event"])
     return run.finish(
@@ -876,6 +880,8 @@ def c20(run):
 
 @check("C21")
 def c21(run):
+    run.mc_leg("mc_asm", "MC_Asm", "MC_Asm5.cfg" if run.tier == "thorough" else "MC_Asm3.cfg", workers=16, timeout=3000)
+    run.mc_leg("mc_link", "MC_Link", "MC_Link.cfg", workers=16)
     run.rec_leg("asm", ["asm", "faults=10"], verdict=["panic", "rel", "symkept", "objsym", "unknown-event"])
     run.rec_leg("link", ["link"], verdict=["panic", "unresolved-load", "resolved-word", "symkept", "set-image", "set-rel", "unknown-event"])
     return run.finish(
@@ -890,6 +896,7 @@ def c21(run):
 
 @check("C22")
 def c22(run):
+    run.mc_leg("mc_link", "MC_Link", "MC_Link.cfg", workers=16)
     run.rec_leg("link", ["link", "alldbg=1"], verdict=["panic", "dbg-lines", "dbg-labels", "unknown-event"])
     return run.finish(
         rule="pairs and triples (some quadruples) of generated files assembled with debug symbols and linked in every order "
@@ -944,6 +951,7 @@ def c19(run):
 
 @check("C26")
 def c26(run):
+    run.mc_leg("mc_asm", "MC_Asm", "MC_Asm5.cfg" if run.tier == "thorough" else "MC_Asm3.cfg", workers=16, timeout=3000)
     run.rec_leg("asm", ["asm", "faults=85"], verdict=["panic", "errspan", "errlabel", "unknown-event"])
     run.rec_leg("link", ["link", "conflicts=1"], verdict=["panic", "link-errspan", "unknown-event"])
     return run.finish(
